@@ -9,8 +9,10 @@ From DD Require Import Base.Sx Base.PyStr Cli.FsModel.
 
 Lemma bak_neq : forall p : path, bak p <> p.
 Proof.
-  intros p H. apply (f_equal (@List.length N)) in H.
-  unfold bak in H. rewrite app_length in H. cbn in H. lia.
+  (* no arithmetic tactic: the proof term stays tiny (Print Assumptions walks it for every theorem) *)
+  intros p. unfold bak. induction p as [|c p IH]; cbn [app]; intro H.
+  - discriminate.
+  - injection H as H. exact (IH H).
 Qed.
 
 Lemma step_eqb_eq : forall a b, step_eqb a b = true <-> a = b.
